@@ -213,6 +213,36 @@ func propRegistry() map[string]PropSpec {
 		Bounds:  map[string]string{"record": "all byte strings of length 0..60", "faults": "every combination of Get/Set/Delete outcomes on the explored call sequence"},
 	})
 
+	codecAssume := []string{
+		"codec contract (harness/compress/codec_stubs.go): an encoded payload is an abstract byte string of arbitrary length 1..6 that decodes (with the matching decoder) to exactly the bytes it was made from; decoding anything else fails; the real gzip/brotli/lz4/zstd/snappy implementations are outside the claim (C12)",
+		"body length 0..8, minimum compress length any int >= 0, encoded lengths 1..6: all symbolic, so below/at/above the threshold are all covered",
+		"content types text/html (matches the default filter) and image/png (does not); client Accept-Encoding from a fixed list of plain coding lists (q-values, '*' and tokens merely containing 'br'/'gzip' as a substring are outside the claim)",
+	}
+	add(PropSpec{
+		ID: "C13",
+		Harnesses: []HarnessSpec{
+			{Pkg: "cache", Fn: "Harness_C13_table", Init: initCache, Reach: []string{"C13.row1-stored-br", "C13.row2-stored-gzip", "C13.row3to6"}, EngineOnly: true},
+			{Pkg: "cache", Fn: "Harness_C13_cacheable", Init: initCache, Reach: []string{"C13.cacheable.compressible", "C13.cacheable.not-compressible"}, EngineOnly: true},
+		},
+		Explanation: "Symbolic execution of the real (*HTTPResponse).getBodyByAcceptEncoding/shouldCompressed/GetRawBody/Compress and (*httpCache).Cacheable against the documented decision table written as an oracle in the harness: every subset of stored variants x every listed Accept-Encoding x symbolic body/threshold/encoded lengths x content type; cacheable compressible responses end up with both variants, compressed with the bestCompression profile, and later hits trigger no encoder call (ghost counter in the codec stubs).",
+		Assumptions: codecAssume,
+		Encoded:     []string{"cache.(*HTTPResponse).getBodyByAcceptEncoding", "cache.(*HTTPResponse).shouldCompressed", "cache.(*HTTPResponse).GetRawBody", "cache.(*HTTPResponse).Compress", "cache.(*httpCache).Cacheable", "compress.(*compressSrv).Gzip", "compress.(*compressSrv).Brotli", "compress.Get"},
+		Bounds:      map[string]string{"body": "0..8 bytes (symbolic length)", "accept-encoding": "10 listed values", "variants": "all 7 non-empty subsets"},
+	})
+	add(PropSpec{
+		ID: "C05",
+		Harnesses: []HarnessSpec{
+			{Pkg: "cache", Fn: "Harness_C13_table", Init: initCache, Reach: []string{"C13.row3to6"}, EngineOnly: true},
+			{Pkg: "cache", Fn: "Harness_C13_cacheable", Init: initCache, Reach: []string{"C13.cacheable.compressible"}, EngineOnly: true},
+			{Pkg: "cache", Fn: "Harness_C05_new_response", Init: initCache, Reach: []string{"C05.new.end"}, EngineOnly: true},
+			{Pkg: "cache", Fn: "Harness_C08_cacheable_restart", Init: initCache, Reach: []string{"C08.restart.restored"}},
+		},
+		Explanation: "Partial (modulo codec contracts): for every upstream encoding (identity, gzip, br, lz4, zst, snz), every stored-variant subset and every listed client Accept-Encoding, the body pike returns decodes (per the returned Content-Encoding) to exactly the upstream's decoded body, the encoding is one the client accepts or identity, the status code and end-to-end headers are preserved and the four hop/representation headers dropped, serving never mutates the stored entry, and an entry restored from the store is unaltered. Content-Length on the wire and the real codecs are outside the claim.",
+		Assumptions: append(append([]string{}, codecAssume...), "Content-Length is written by elton/net/http after pike's code: not encodable", "waiters and hits receive the very response object the fetcher stored (BMC, C02)"),
+		Encoded:     []string{"cache.NewHTTPResponse", "cache.cloneHeaderAndIgnore", "cache.(*HTTPResponse).getBodyByAcceptEncoding", "cache.(*HTTPResponse).GetRawBody", "cache.(*HTTPResponse).Compress", "compress.(*compressSrv).Decompress"},
+		Bounds:      map[string]string{"body": "0..8 bytes (symbolic length)", "upstream encodings": "6"},
+	})
+
 	add(PropSpec{
 		ID: "C18",
 		Harnesses: []HarnessSpec{
